@@ -14,7 +14,11 @@ RULE = ('generated dataset directories over the option product (KS vs ALF names 
         'vectors, each optional file present/absent incl. features / template features / spike_times_reordered, dense vs '
         'sparse templates, id/time/channel-map dtypes, raw file wider than the channel map, NaN/inf sprinkled into fully '
         'loaded arrays, all-NaN templates, extra spike_*.npy attributes of right and wrong length, non-monotonic times, '
-        'four construction routes: kwargs / load_model(params.py) / two alternative params.py spellings): pairwise-style '
+        'four construction routes: kwargs / load_model(params.py) / two alternative params.py spellings; channel positions in '
+        'eight coordinate systems - non-negative micrometres, pitch units centred on the probe, dense centred blocks, '
+        'half/quarter steps, mirrored pairs, one line, far from the origin, dyadic fractions - stored as float64 / float32 / '
+        'int32 / int64; whitening matrices with exact and with inexact binary64 inverse; a pre-existing inverse file '
+        'holding the binary64 inverse, its float32 / float16 / decimal-rounded copy or a stale matrix): pairwise-style '
         'coverage of the axes first, then seeded random; every such directory satisfies the decidable well-formedness '
         'predicate wf_b of C04/Spec.v (checked by the comparator, code 3 otherwise).  A second stream of malformed '
         'directories (one well-formedness condition broken) is judged on the exception class of the error exit only.  '
@@ -38,7 +42,8 @@ TRUSTED = ['np.load/np.save/np.memmap, pathlib.glob, shutil.copy, np.linalg.inv 
 ASSUMES = ['well-formed = wf_b of C04/Spec.v: at most one file per glob pattern, consistent shapes (so no axis of length 1 '
            'other than the (n,1) vector layout: phylib squeezes every array), integer ids, channel map within the raw '
            'file, pairwise distinct positions, a template file, no two spike-cluster files, finite spike times',
-           'whitening matrices whose inverse is exact in binary64']
+           'an invertible, well-conditioned whitening matrix when the inverse file is absent (the computed inverse is judged to '
+           '2^-30); a pre-existing inverse file only needs the right shape']
 TIMEOUT = {'quick': 20, 'thorough': 30}
 
 # how the model is constructed (implementation-side axis; the abstract result does not depend on it):
@@ -52,6 +57,61 @@ ROUTES = ['kwargs', 'params', 'params_alt', 'params_dup']
 ID_DTYPES = ['uint16', 'uint32', 'int32', 'int64']
 TIME_DTYPES = ['uint64', 'int64', 'int32']
 CM_DTYPES = ['uint32', 'int32', 'int64']
+
+
+POS_STYLES = ['centred', 'block', 'frac', 'mirror', 'line', 'big', 'dyadic']
+WMI_KINDS = ['exact64', 'exact64', 'f32', 'rounded', 'f16', 'stale']
+
+
+def _positions(rng, nc, style):
+    """nc pairwise distinct channel positions in a coordinate system other than non-negative integer micrometres.
+    Distinct as PAIRS only: coordinates repeat, cancel, mirror and interleave freely (a*x + y is far from injective)."""
+    pitch = rng.choice([1.0, 1.0, 0.5, 0.25, 16.0, 20.0, 2.5])
+    if style == 'centred':      # site-pitch units with the origin in the middle of the probe
+        cells = [(x, y) for x in range(-1, 3) for y in range(-3, 5)]
+        pts = rng.sample(cells, nc)
+    elif style == 'block':      # a full block of sites, k columns, rows centred on zero (the usual dense probe)
+        k = rng.choice([1, 2, 2, 3])
+        rows = -(-nc // k)
+        y0, x0 = -(rows // 2) - rng.choice([0, 0, 1]), rng.choice([0, 0, -1])
+        pts = [(x0 + i % k, y0 + i // k) for i in range(nc)]
+        rng.shuffle(pts)
+    elif style == 'frac':       # staggered columns: half / quarter steps
+        cells = [(x / 2, y / 4) for x in range(-2, 4) for y in range(-6, 8)]
+        pts = rng.sample(cells, nc)
+    elif style == 'mirror':     # (a, b) together with (b, a), (-a, -b), (a, -b)
+        pts = []
+        while len(pts) < nc:
+            a, b = rng.randint(-3, 3), rng.randint(-3, 3)
+            for p in rng.sample([(a, b), (b, a), (-a, -b), (a, -b), (-b, a)], 5):
+                if p not in pts and len(pts) < nc:
+                    pts.append(p)
+    elif style == 'line':       # all sites in one column or one row
+        ys = rng.sample(range(-4, 6), nc)
+        c = rng.choice([0, 0, -1, 7])
+        pts = [(c, y) for y in ys] if rng.random() < 0.5 else [(y, c) for y in ys]
+    elif style == 'big':        # far from the origin: distinct only in the low digits
+        bx, by = rng.choice([10 ** 6, -10 ** 6, 2 ** 24, 0]), rng.choice([10 ** 6, 2 ** 30, -2 ** 20])
+        cells = [(bx + x, by + y) for x in range(0, 3) for y in range(-2, 4)]
+        pts = rng.sample(cells, nc)
+    else:                       # 'dyadic': arbitrary small dyadic fractions of either sign
+        pts = []
+        while len(pts) < nc:
+            p = (rng.randint(-40, 40) / 8, rng.randint(-40, 40) / 8)
+            if p not in pts:
+                pts.append(p)
+    out = [[float(x * pitch), float(y * pitch)] for x, y in pts]
+    assert len(set(map(tuple, out))) == nc
+    return out
+
+
+def _dense_wm(rng, nc):
+    """a well-conditioned (strictly diagonally dominant) whitening matrix with dyadic entries: its inverse is NOT exact in
+    binary64 (np.linalg.inv is judged by the tolerance of Corr.v; a stored inverse is read as it is)."""
+    M = [[(rng.randint(-3, 3) / 8 if rng.random() < 0.7 else 0.0) for _ in range(nc)] for _ in range(nc)]
+    for i in range(nc):
+        M[i][i] = float(rng.choice([2, 3, 3, 5, -3])) + rng.choice([0, 0.5, 0.25])
+    return M
 
 
 def _tmpl_file(files):
@@ -74,13 +134,21 @@ def _mk(rng, **force):
         'warm': rng.random() < 0.3,
         'reorder': rng.random() < 0.25, 'nan_partial': rng.random() < 0.15, 'one_channel': rng.random() < 0.06,
     }
+    # stage 5 axes: the coordinate system of the channel positions (probe geometries are not only non-negative integer
+    # micrometres), the dtype of the position file, the kind of whitening matrix (its inverse need not be exact in
+    # binary64) and what a PRE-EXISTING whitening_mat_inv.npy holds (phylib reads it as it is: the statement says
+    # "equal the file contents", not "equal inv(wm)")
+    o['pos_style'] = rng.choice(POS_STYLES) if rng.random() < 0.55 else 'um'
+    o['pos_dtype'] = rng.choice(['float64', 'float64', 'float32', 'int32', 'int64'])
+    o['wm_dense'] = rng.random() < 0.3
+    o['wmi_kind'] = rng.choice(WMI_KINDS)
     o.update(force)
     if o['one_channel']:
         # a single channel: every per-channel array is squeezed to 0-d / 1-d and restored by atleast_1d/2d/3d, reshape(-1)
         o['sparse'] = o['features'] = False
         force = dict(force, curated=False)
     sem = D.gen_semantic(rng, n_spikes=rng.randint(2, 9), n_templates=rng.randint(2, 4),
-                         n_channels=1 if o['one_channel'] else rng.randint(2, 5),
+                         n_channels=1 if o['one_channel'] else force.get('n_channels', rng.randint(2, 5)),
                          n_samples_wf=rng.randint(2, 4), features=bool(o['features']), template_features=bool(o['tfeatures']),
                          rate=rng.choice([128.0, 1024.0, 100.0, 30000.0, 25000.0]),
                          **{k: force[k] for k in ('curated', 'amplitudes', 'shanks', 'probes', 'whitening', 'similar', 'raw')
@@ -88,13 +156,51 @@ def _mk(rng, **force):
     if o['names'] == 'alf':
         # ALF times are stored in seconds: samples/rate must be exact for the stored value to be "the" time
         sem['rate'] = rng.choice([128.0, 1024.0, 32768.0])
+    import numpy as np
+    nc_ = sem['n_channels']
+    if o['pos_style'] != 'um':
+        sem['positions'] = _positions(rng, nc_, o['pos_style'])
+    if o['wm_dense'] and sem['wm'] is not None:
+        sem['wm'] = _dense_wm(rng, nc_)
     if o['write_wmi'] and sem['wm'] is not None:
-        import numpy as np
         sem['wmi'] = np.linalg.inv(np.array(sem['wm'])).tolist()
     ds = D.render(sem, rng, **{k: o[k] for k in ('names', 'label', 'vec2d', 'write_clusters', 'id_dtype', 'time_dtype',
                                                   'cm_dtype', 'alf_samples', 'tmpl_dtype')})
     files = ds['files']
     ns = sem['n_spikes']
+    pn = [n for n in files if n.startswith(('channel_positions', 'channels.localCoordinates'))][0]
+    orig = np.array(files[pn]['data'], dtype='float64').reshape(-1, 2)
+    with np.errstate(all='ignore'):
+        cast = orig.astype(o['pos_dtype'])
+    # (a narrower dtype must keep the sites pairwise distinct; an integer dtype must hold the values)
+    if o['pos_dtype'] != 'float64' and len(set(map(tuple, cast.tolist()))) == nc_ and \
+            (o['pos_dtype'] == 'float32' or bool(np.array_equal(cast.astype('float64'), orig))):
+        files[pn]['dtype'] = o['pos_dtype']
+        if o['pos_dtype'].startswith('int'):
+            files[pn]['data'] = [int(v) for v in files[pn]['data']]
+    else:
+        o['pos_dtype'] = 'float64'
+    if o['write_wmi']:
+        # what the pre-existing inverse file holds
+        kind = o['wmi_kind']
+        if sem['wm'] is None:
+            # no whitening matrix file (wm = identity by default) but an inverse file: read as it is
+            kind = o['wmi_kind'] = 'stale'
+        if kind != 'exact64':
+            inv = np.linalg.inv(np.array(sem['wm'])) if sem['wm'] is not None else np.eye(nc_)
+            if kind == 'f32':        # a sorter that saves its matrices in single precision
+                a = inv.astype(np.float32)
+            elif kind == 'rounded':  # exported with a few decimals
+                a = np.round(inv, rng.choice([2, 3, 5]))
+            elif kind == 'f16':
+                a = inv.astype(np.float16).astype(np.float32)
+            else:                    # 'stale': the inverse of another matrix (the whitening matrix was regenerated)
+                a = np.linalg.inv(np.array(_dense_wm(rng, nc_) if rng.random() < 0.5 else D.whitening(rng, nc_, 'perm2')))
+                if rng.random() < 0.3:
+                    a = a.astype(np.float32)
+            files['whitening_mat_inv.npy'] = {'dtype': a.dtype.name, 'shape': [nc_, nc_], 'data': [float(v) for v in a.ravel()]}
+    else:
+        o['wmi_kind'] = 'absent'
     if ds.get('raw') and sum(ds['raw']['sizes']) > 14 and o.get('short_raw', rng.random() < 0.85):
         # a recording shorter than the last spike (the loader only logs a warning): keeps the raw literal small
         k = len(ds['raw']['sizes'])
@@ -247,6 +353,21 @@ BREAK_NEEDS = {'amps_longer': dict(amplitudes=True), 'amps_2d': dict(amplitudes=
 
 def generate(tier, rng):
     cases = []
+    # stage 5 corpus (runs first): channel positions outside non-negative integer micrometres, and pre-existing inverse
+    # whitening files that are not the binary64 inverse phylib itself would write
+    for force in [
+        dict(pos_style='block', n_channels=5, names='ks', pos_dtype='float64'), dict(pos_style='block', n_channels=4, names='alf'),
+        dict(pos_style='centred', n_channels=5), dict(pos_style='frac', n_channels=5), dict(pos_style='mirror', n_channels=5),
+        dict(pos_style='line'), dict(pos_style='big', pos_dtype='float64'), dict(pos_style='dyadic', pos_dtype='float32'),
+        dict(pos_style='block', pos_dtype='int32', curated=True),
+        dict(whitening='tri', wm_dense=True, write_wmi=True, wmi_kind='f32'),
+        dict(whitening='tri', wm_dense=True, write_wmi=True, wmi_kind='rounded', names='alf'),
+        dict(whitening='diag', wm_dense=True, write_wmi=True, wmi_kind='f16'),
+        dict(whitening='perm2', write_wmi=True, wmi_kind='stale'), dict(whitening='none', write_wmi=True),
+        dict(whitening='tri', wm_dense=True, write_wmi=False), dict(whitening='diag', wm_dense=True, write_wmi=True, wmi_kind='exact64'),
+    ]:
+        for _ in range(2):
+            cases.append({'kind': 'load', 'inp': _mk(rng, **force)})
     # corpus: the configurations behind known defects / boundary rules
     for force in [
         dict(names='alf', label='', write_clusters=False, curated=False),          # ALF without a cluster file
@@ -498,8 +619,8 @@ def dist(case, obs):
         return out + ['broken=%s' % o.get('broken')]
     for k in ('names', 'label', 'vec2d', 'write_clusters', 'id_dtype', 'time_dtype', 'cm_dtype', 'nan', 'nan_template',
               'attrs', 'nonmono', 'write_wmi', 'alf_samples', 'sparse', 'route', 'features', 'tfeatures', 'reorder',
-              'nan_partial', 'one_channel', 'both'):
-        out.append('%s=%s' % (k, o[k]))
+              'nan_partial', 'one_channel', 'both', 'pos_style', 'pos_dtype', 'wm_dense', 'wmi_kind'):
+        out.append('%s=%s' % (k, o.get(k)))
     f = case['inp']['files']
     out.append('raw=%s' % bool(case['inp'].get('raw')))
     out.append('whitening_file=%s' % ('whitening_mat.npy' in f))
